@@ -25,6 +25,8 @@ type (
 	Labels map[string]string
 	Levels []Level
 	Wait   time.Duration
+	Cx     complex64
+	Cx2    complex128
 )
 
 // TU is a harness text-unmarshalable struct ("a:b").
@@ -91,7 +93,9 @@ func rv(x any) reflect.Value { return reflect.ValueOf(x) }
 
 func intText(v reflect.Value) string   { return strconv.FormatInt(v.Int(), 10) }
 func uintText(v reflect.Value) string  { return strconv.FormatUint(v.Uint(), 10) }
-func floatText(v reflect.Value) string { return strconv.FormatFloat(v.Float(), 'g', -1, v.Type().Bits()) }
+// floatText prints the exact (widened) value, so that the text denotes the
+// float32 itself and not a shorter decimal that merely rounds to it.
+func floatText(v reflect.Value) string { return strconv.FormatFloat(v.Float(), 'g', -1, 64) }
 
 func signedLeaf(name string, zero any, bits int, caps int) *Leaf {
 	t := reflect.TypeOf(zero)
@@ -218,7 +222,7 @@ func buildLeaves() []*Leaf {
 		{Name: "ip", Type: reflect.TypeOf(net.IP{}), Caps: CapFlag | CapFile | CapTextU | CapRef,
 			Text: func(v reflect.Value) string { return v.Interface().(net.IP).String() },
 			Gen: func(r *fw.Rand, uniq int) reflect.Value {
-				return rv(net.IPv4(10, byte(uniq>>16), byte(uniq>>8), byte(uniq)).To4())
+				return rv(net.IPv4(10, byte(uniq>>16), byte(uniq>>8), byte(uniq)))
 			}},
 		{Name: "tu", Type: reflect.TypeOf(TU{}), Caps: CapFlag | CapFile | CapTextU,
 			Text: func(v reflect.Value) string { b, _ := v.Interface().(TU).MarshalText(); return string(b) },
@@ -389,6 +393,15 @@ func buildLeaves() []*Leaf {
 			Gen: func(r *fw.Rand, uniq int) reflect.Value { return rv(Mode(-uniq)) }},
 		{Name: "Flag", Type: reflect.TypeOf(Flag(false)), Caps: CapEnv | CapFlag | CapNamed, Text: func(v reflect.Value) string { return strconv.FormatBool(v.Bool()) },
 			Gen: func(r *fw.Rand, uniq int) reflect.Value { return rv(Flag(uniq%2 == 1)) }},
+		{Name: "Cx", Type: reflect.TypeOf(Cx(0)), Caps: CapEnv | CapFlag | CapNamed,
+			Text: func(v reflect.Value) string { return strconv.FormatComplex(v.Complex(), 'g', -1, 64) },
+			Gen:  func(r *fw.Rand, uniq int) reflect.Value { return rv(Cx(complex(float32(uniq), 1.5))) }},
+		{Name: "Cx2", Type: reflect.TypeOf(Cx2(0)), Caps: CapEnv | CapFlag | CapNamed,
+			Text: func(v reflect.Value) string { return strconv.FormatComplex(v.Complex(), 'g', -1, 128) },
+			Gen:  func(r *fw.Rand, uniq int) reflect.Value { return rv(Cx2(complex(float64(uniq), -0.5))) }},
+		// a named type over time.Duration is a plain named int64 to dials: integer text
+		{Name: "Wait", Type: reflect.TypeOf(Wait(0)), Caps: CapEnv | CapFlag | CapNamed, Text: intText,
+			Gen:  func(r *fw.Rand, uniq int) reflect.Value { return rv(Wait(time.Duration(uniq) * time.Second)) }},
 		{Name: "Names", Type: reflect.TypeOf(Names{}), Caps: CapEnv | CapNamed | CapRef,
 			Text: func(v reflect.Value) string { return quoteList([]string(v.Interface().(Names))) },
 			Gen:  func(r *fw.Rand, uniq int) reflect.Value { return rv(Names{GenString(r, uniq), "n"}) }},
